@@ -8,7 +8,7 @@ From Ynca Require Import Base.Text Base.Decimal Model.Enum Model.Conv Model.Step
 Import ListNotations.
 
 Inductive pyval :=
-| PEnum (ename mname wire : text)     (* a member of some Enum class; wire = member.value *)
+| PEnum (ename mname wire : text) (is_str : bool)  (* a member of some Enum class; wire = member.value; is_str: the class mixes in str *)
 | PStr (t : text)
 | PInt (z : Z)
 | PBool (b : bool)
@@ -66,7 +66,7 @@ Section Encode.
     match c with
     | CEnum _ =>
         match v with
-        | PEnum _ _ w => Some (Ok w)               (* cast(Enum, value).value *)
+        | PEnum _ _ w _ => Some (Ok w)             (* cast(Enum, value).value *)
         | _ => Some Raise                           (* no attribute 'value' *)
         end
     | CStr mn mx =>
@@ -81,7 +81,9 @@ Section Encode.
                     | None => Some Raise
                     | Some _ => match ts with TSStr => None | _ => tostr_apply ts v end
                     end
-        | PEnum _ _ _ => None
+        | PEnum _ _ w true =>                                  (* int(member) parses the str value *)
+            match int_of_text py_int w with None => Some Raise | Some _ => None end
+        | PEnum _ _ _ false => Some Raise                      (* TypeError *)
         | _ => tostr_apply ts v
         end
     | CFloat ts =>
@@ -91,7 +93,9 @@ Section Encode.
                     | None => Some Raise
                     | Some _ => match ts with TSStr => None | _ => tostr_apply ts v end
                     end
-        | PEnum _ _ _ => None
+        | PEnum _ _ w true =>
+            match float_of_text py_float w with None => Some Raise | Some _ => None end
+        | PEnum _ _ _ false => Some Raise
         | PInt z => if (Z.abs z <? 2 ^ 1000)%Z then tostr_apply ts v else None
         | _ => tostr_apply ts v
         end
